@@ -56,8 +56,18 @@ inductive Err
   | rowError        -- sqlframe.base.exceptions.RowError
   | psValueError    -- pyspark.errors.PySparkValueError
   | psTypeError     -- pyspark.errors.PySparkTypeError
-  | keyError | indexError | attributeError | typeError | runtimeError
+  | keyError | indexError | attributeError | typeError | runtimeError | valueError
   deriving DecidableEq, Repr, Inhabited
+
+/-- a regenerated exception class as an outcome (`domainError` is sqlframe's own RowError) -/
+def Err.ofExc : Exc → Err
+  | .attributeError => .attributeError
+  | .keyError => .keyError
+  | .indexError => .indexError
+  | .valueError => .valueError
+  | .typeError => .typeError
+  | .runtimeError => .runtimeError
+  | .domainError => .rowError
 
 /-- the packages' own error classes are identified ("raises in the same situations") -/
 def Err.abs : Err → Err
@@ -71,6 +81,8 @@ inductive Out
   | n (i : Int)
   | s (x : String)
   | err (e : Err)
+  | tup (vs : Vals)     -- a plain tuple (what slicing a Row gives)
+  | callable            -- a bound method found on the class before `__getattr__` is asked
   deriving Inhabited
 
 def Out.abs : Out → Out
@@ -185,6 +197,56 @@ def startsWithDunder (s : String) : Bool :=
   | '_' :: '_' :: _ => true
   | _ => false
 
+def isPrefix : List Char → List Char → Bool
+  | [], _ => true
+  | _ :: _, [] => false
+  | p :: ps, c :: cs => p == c && isPrefix ps cs
+
+/-- `s.startswith(p)` -/
+def startsWith (s p : String) : Bool := isPrefix p.toList s.toList
+
+/-- names the class itself answers (tuple's methods, `asDict`): normal attribute lookup finds them and `__getattr__`
+    is never asked, whatever the fields are called -/
+def classAttrs : List String := ["count", "index", "asDict"]
+
+-- can `hash()` be taken: tuple hashing fails on the first list / dict inside
+mutual
+def hashable : Val → Bool
+  | .list _ => false
+  | .dict _ _ => false
+  | .row _ _ vs => hashables vs
+  | _ => true
+def hashables : Vals → Bool
+  | .nil => true
+  | .cons v vs => hashable v && hashables vs
+end
+
+/-- one bound of a slice, clamped the way `slice.indices(n)` does for step 1 -/
+def clampBound (n : Nat) (i : Int) : Nat :=
+  if i < 0 then (if (-i).toNat ≤ n then n - (-i).toNat else 0) else (if i.toNat < n then i.toNat else n)
+
+def dropVals : Nat → Vals → Vals
+  | 0, vs => vs
+  | _ + 1, .nil => .nil
+  | k + 1, .cons _ vs => dropVals k vs
+
+def takeVals : Nat → Vals → Vals
+  | 0, _ => .nil
+  | _ + 1, .nil => .nil
+  | k + 1, .cons v vs => .cons v (takeVals k vs)
+
+/-- `t[i:j]` -/
+def slice (vs : Vals) (i j : Int) : Vals :=
+  let lo := clampBound vs.length i
+  let hi := clampBound vs.length j
+  takeVals (hi - lo) (dropVals lo vs)
+
+/-- tuple `<=`: the first differing position decides with `<`; equal up to the shorter length: the shorter is smaller -/
+def leTuple : Vals → Vals → Option Bool
+  | .nil, _ => some true
+  | .cons _ _, .nil => some false
+  | .cons a as, .cons b bs => if eq a b then leTuple as bs else ltScalar a b
+
 end Py
 
 /-- top-level Decimal → float (`float(x) if isinstance(x, Decimal) else x`) -/
@@ -254,13 +316,13 @@ def reprFields : Vals → Vals → String
   | _, _ => ""
 end
 
--- `conv` of `asDict(recursive=True)`
+-- `conv` of `asDict(recursive=True)`: descends into the container kinds the source names
 mutual
 def conv : Val → Val
-  | .row true fs vs => let d := Py.dictZip fs (convs vs) ([], .nil); .dict d.1 d.2
+  | .row true fs vs => if convRow then (let d := Py.dictZip fs (convs vs) ([], .nil); .dict d.1 d.2) else .row true fs vs
   | .row false fs vs => .row false fs vs          -- asDict on it raises; not generated nested
-  | .list xs => .list (convs xs)
-  | .dict ks vs => .dict ks (convs vs)
+  | .list xs => if convList then .list (convs xs) else .list xs
+  | .dict ks vs => if convDict then .dict ks (convs vs) else .dict ks vs
   | v => v
 def convs : Vals → Vals
   | .nil => .nil
@@ -269,7 +331,7 @@ end
 
 def asDict (self : Val) (recursive : Bool) : Out :=
   match self with
-  | .row false _ _ => .err .rowError
+  | .row false _ _ => .err (Err.ofExc asDictNoFields)
   | .row true fs vs =>
     let d := Py.dictZip fs (if recursive then convs vs else vs) ([], .nil)
     .val (.dict d.1 d.2)
@@ -281,35 +343,58 @@ def contains (self : Val) (item : Val) : Out :=
   | .row false _ vs => .b (Py.contains item vs)
   | _ => .err .typeError
 
-def getIdx (self : Val) (i : Int) : Out :=
-  match self with
-  | .row _ _ vs =>
-    (match Py.index vs.length i with
-     | some k => (match vs.get? k with | some v => .val v | none => .err .indexError)
-     | none => .err .indexError)
-  | _ => .err .typeError
-
+/-- the lookup both accessors share: `idx = self.__fields__.index(item)` then the value at `idx` -/
 def getKey (self : Val) (item : Val) : Out :=
   match self with
   | .row false _ _ => .err .attributeError          -- `self.__fields__` → __getattr__("__fields__") raises
   | .row true fs vs =>
     (match Py.indexOf item fs 0 with
-     | none => .err .rowError                        -- ValueError from .index → RowError(item)
-     | some k => (match vs.get? k with | some v => .val v | none => .err .keyError))
+     | none => .err (Err.ofExc getitemNoField)       -- ValueError from .index → RowError(item)
+     | some k => (match vs.get? k with | some v => .val v | none => .err (Err.ofExc getitemShort)))
   | _ => .err .typeError
 
+/-- `row[i]` for an int: handed to the tuple when `__getitem__` names `int`, otherwise looked up like a name -/
+def getIdx (self : Val) (i : Int) : Out :=
+  if getitemInt then
+    match self with
+    | .row _ _ vs =>
+      (match Py.index vs.length i with
+       | some k => (match vs.get? k with | some v => .val v | none => .err .indexError)
+       | none => .err .indexError)
+    | _ => .err .typeError
+  else getKey self (.int i)
+
+/-- `row[i:j]`: a plain tuple when `__getitem__` names `slice`; a slice is never a field name otherwise -/
+def getSlice (self : Val) (i j : Int) : Out :=
+  match self with
+  | .row hf _ vs =>
+    if getitemSlice then .tup (Py.slice vs i j)
+    else if hf then .err (Err.ofExc getitemNoField) else .err .attributeError
+  | _ => .err .typeError
+
+/-- `row.name`: names the class answers never reach `__getattr__`; then the prefix guard; then the lookup -/
 def getAttr (self : Val) (name : String) : Out :=
-  if Py.startsWithDunder name then .err .attributeError
+  if Py.classAttrs.contains name then .callable
+  else if Py.startsWith name getattrGuardPrefix then .err (Err.ofExc getattrGuardRaises)
   else match self with
   | .row false _ _ => .err .attributeError
   | .row true fs vs =>
     (match Py.indexOf (.str name) fs 0 with
-     | none => .err .attributeError
-     | some k => (match vs.get? k with | some v => .val v | none => .err .attributeError))
+     | none => .err (Err.ofExc getattrNoField)
+     | some k => (match vs.get? k with | some v => .val v | none => .err (Err.ofExc getattrShort)))
   | _ => .err .typeError
 
 def setAttr (_self : Val) (name : String) : Out :=
-  if name != "__fields__" then .err .runtimeError else .b true
+  if name != setattrAllowed then .err (Err.ofExc setattrRaises) else .b true
+
+/-- `del row.name` for a name that is not in the instance dict: object.__delattr__ finds nothing to delete -/
+def delAttr (_self : Val) (_name : String) : Out := .err .attributeError
+
+/-- `hash(row) == hash(tuple(row))`, or TypeError for an unhashable value inside -/
+def hashOp (self : Val) : Out :=
+  match self with
+  | .row _ _ vs => if Py.hashables vs then .b true else .err .typeError
+  | _ => .err .typeError
 
 /-- `pickle.loads(pickle.dumps(row))` via `__reduce__` -/
 def pickle (self : Val) : Out :=
@@ -325,8 +410,11 @@ def compareVals (close : Int → Int → Bool) : Val → Val → Bool
   | .list xs, .list ys => (if listLenChecked then xs.length == ys.length else true) && compareAll close xs ys
   | .row _ _ xs, .row _ _ ys => (if rowZipTruncates then true else xs.length == ys.length) && compareAll close xs ys
   | .dict k1 v1, .dict k2 v2 =>
-    (if dictKeysChecked then k1.length == k2.length && k1.all k2.contains && k2.all k1.contains else true)
-      && compareDict close k1 v1 k2 v2
+    (if dictLenChecked then k1.length == k2.length else true)
+      && (if dictKeysChecked then k1.all k2.contains && k2.all k1.contains else true)
+      && (match dictPairing with
+          | .byKey => compareDict close k1 v1 k2 v2      -- `compare_vals(val1[k], val2[k]) for k in val1.keys()`
+          | .byPosition => compareAll close v1 v2)       -- `zip(val1.values(), val2.values())`
   | .flt a ra, .flt b rb => if floatFormula then close a b else Py.eq (.flt a ra) (.flt b rb)
   | a, b => Py.eq a b
 def compareAll (close : Int → Int → Bool) : Vals → Vals → Bool
@@ -366,11 +454,17 @@ def zipLongestAll (close : Int → Int → Bool) : List Val → List Val → Boo
   | a :: as, [] => if zipLongest then restLeft close (a :: as) else true
   | a :: as, b :: bs => compareRows close (some a) (some b) && zipLongestAll close as bs
 
+/-- the list the comparison sees for one argument: sorted (a copy or the list itself) unless the order is checked -/
+def sortIf (m : SortMode) (checkRowOrder : Bool) (l : List Val) : List Val :=
+  if !checkRowOrder && m != .none then sortRows l else l
+
+/-- the CALLER's list after the call: only an in-place sort changes it -/
+def callerAfter (m : SortMode) (checkRowOrder : Bool) (l : List Val) : List Val :=
+  if !checkRowOrder && m == .inPlace then sortRows l else l
+
 /-- does `assertDataFrameEqual(actual, expected, checkRowOrder)` accept two lists of rows? -/
 def verdict (close : Int → Int → Bool) (checkRowOrder : Bool) (actual expected : List Val) : Bool :=
-  let a := if !checkRowOrder && sortsBoth then sortRows actual else actual
-  let e := if !checkRowOrder && sortsBoth then sortRows expected else expected
-  zipLongestAll close a e
+  zipLongestAll close (sortIf sortActual checkRowOrder actual) (sortIf sortExpected checkRowOrder expected)
 
 end Sf
 
@@ -458,8 +552,14 @@ def getKey (self : Val) (item : Val) : Out :=
      | some k => (match vs.get? k with | some v => .val v | none => .err .keyError))
   | _ => .err .typeError
 
+def getSlice (self : Val) (i j : Int) : Out :=
+  match self with
+  | .row _ _ vs => .tup (Py.slice vs i j)
+  | _ => .err .typeError
+
 def getAttr (self : Val) (name : String) : Out :=
-  if Py.startsWithDunder name then .err .attributeError
+  if Py.classAttrs.contains name then .callable
+  else if Py.startsWith name "__" then .err .attributeError
   else match self with
   | .row false _ _ => .err .attributeError
   | .row true fs vs =>
@@ -470,6 +570,13 @@ def getAttr (self : Val) (name : String) : Out :=
 
 def setAttr (_self : Val) (name : String) : Out :=
   if name != "__fields__" then .err .runtimeError else .b true
+
+def delAttr (_self : Val) (_name : String) : Out := .err .attributeError
+
+def hashOp (self : Val) : Out :=
+  match self with
+  | .row _ _ vs => if Py.hashables vs then .b true else .err .typeError
+  | _ => .err .typeError
 
 def pickle (self : Val) : Out :=
   match self with
@@ -520,10 +627,11 @@ def zipLongestAll (close : Int → Int → Bool) : List Val → List Val → Boo
   | a :: as, [] => restLeft close (a :: as)
   | a :: as, b :: bs => compareRows close (some a) (some b) && zipLongestAll close as bs
 
+def sortIf (checkRowOrder : Bool) (l : List Val) : List Val :=
+  if !checkRowOrder then sortRows l else l
+
 def verdict (close : Int → Int → Bool) (checkRowOrder : Bool) (actual expected : List Val) : Bool :=
-  let a := if !checkRowOrder then sortRows actual else actual
-  let e := if !checkRowOrder then sortRows expected else expected
-  zipLongestAll close a e
+  zipLongestAll close (sortIf checkRowOrder actual) (sortIf checkRowOrder expected)
 
 end Ps
 
@@ -548,6 +656,13 @@ inductive Op
   | setAttr (name : String)
   | pickle
   | fields
+  | getSlice (i j : Int)
+  | asDictDefault
+  | ne (other : Val)
+  | le (other : Val)
+  | hash
+  | delAttr (name : String)
+  | setFields (names : List String)      -- `row.__fields__ = names`: the one assignment a Row allows
 
 def strs (ns : List String) : Vals := Vals.ofList (ns.map Val.str)
 
@@ -557,9 +672,20 @@ def Ctor.floatify : Ctor → Ctor
   | .both vs ns kvs => .both vs ns (floatifyAll kvs)
   | .factory ns vs => .factory ns (floatifyAll vs)
 
+/-- the row after `row.__fields__ = names` -/
+def withFields (r : Val) (names : List String) : Val :=
+  match r with
+  | .row _ _ vs => .row true (strs names) vs
+  | v => v
+
 def rowLt (a b : Val) : Out :=
   match a, b with
   | .row _ _ xs, .row _ _ ys => (match Py.ltTuple xs ys with | some r => .b r | none => .err .typeError)
+  | _, _ => .err .typeError
+
+def rowLe (a b : Val) : Out :=
+  match a, b with
+  | .row _ _ xs, .row _ _ ys => (match Py.leTuple xs ys with | some r => .b r | none => .err .typeError)
   | _, _ => .err .typeError
 
 def rowLen : Val → Out
@@ -590,11 +716,28 @@ def apply (r : Val) : Op → Out
   | .setAttr n => setAttr r n
   | .pickle => pickle r
   | .fields => rowFields r
+  | .getSlice i j => getSlice r i j
+  | .asDictDefault => asDict r asDictRecursiveDefault
+  | .ne o => .b (!Py.eq r o)
+  | .le o => rowLe r o
+  | .hash => hashOp r
+  | .delAttr n => delAttr r n
+  | .setFields _ => setAttr r "__fields__"
+
+/-- the row after one query: only an accepted assignment to `__fields__` changes anything -/
+def after (r : Val) : Op → Val
+  | .setFields ns => if "__fields__" != setattrAllowed then r else withFields r ns
+  | _ => r
+
+/-- the outcomes of the queries, made one after the other on the same object, then the object itself -/
+def runOps : Val → List Op → List Out
+  | r, [] => [.val r]
+  | r, op :: ops => apply r op :: runOps (after r op) ops
 
 def run (c : Ctor) (ops : List Op) : List Out :=
   match construct c with
   | .error e => [.err e]
-  | .ok r => .val r :: ops.map (apply r)
+  | .ok r => .val r :: runOps r ops
 end Sf
 
 namespace Ps
@@ -617,11 +760,28 @@ def apply (r : Val) : Op → Out
   | .setAttr n => setAttr r n
   | .pickle => pickle r
   | .fields => rowFields r
+  | .getSlice i j => getSlice r i j
+  | .asDictDefault => asDict r false
+  | .ne o => .b (!Py.eq r o)
+  | .le o => rowLe r o
+  | .hash => hashOp r
+  | .delAttr n => delAttr r n
+  | .setFields _ => setAttr r "__fields__"
+
+/-- the row after one query: only an accepted assignment to `__fields__` changes anything -/
+def after (r : Val) : Op → Val
+  | .setFields ns => if "__fields__" != "__fields__" then r else withFields r ns
+  | _ => r
+
+/-- the outcomes of the queries, made one after the other on the same object, then the object itself -/
+def runOps : Val → List Op → List Out
+  | r, [] => [.val r]
+  | r, op :: ops => apply r op :: runOps (after r op) ops
 
 def run (c : Ctor) (ops : List Op) : List Out :=
   match construct c with
   | .error e => [.err e]
-  | .ok r => .val r :: ops.map (apply r)
+  | .ok r => .val r :: runOps r ops
 end Ps
 
 /-! ## schemas (assertSchemaEqual) -/
@@ -673,6 +833,105 @@ def compareFields : SFields → SFields → Bool
   | _, _ => false
 end
 def schemaVerdict (a e : SFields) : Bool := a.length == e.length && compareFields a e
+end Ps
+
+/-! ## sequences of calls on the SAME list objects (the helper must leave its arguments alone) -/
+
+/-- which of the caller's two lists is passed as (actual, expected) -/
+inductive ArgSel | ae | ea | aa | ee
+  deriving DecidableEq, Repr, Inhabited
+
+def ArgSel.firstIsA : ArgSel → Bool
+  | .ae => true | .aa => true | _ => false
+def ArgSel.secondIsA : ArgSel → Bool
+  | .ea => true | .aa => true | _ => false
+
+structure Call where
+  close : Int → Int → Bool
+  order : Bool
+  sel : ArgSel
+
+/-- the caller's two list objects -/
+structure St where
+  a : List Val
+  e : List Val
+
+def St.get (s : St) (isA : Bool) : List Val := if isA then s.a else s.e
+def St.upd (s : St) (isA : Bool) (f : List Val → List Val) : St :=
+  if isA then { s with a := f s.a } else { s with e := f s.e }
+
+namespace Sf
+/-- one call: the verdict, and the caller's lists afterwards.  `actual_list` / `expected_list` ARE the caller's
+    lists (`actual_list = actual`), so an in-place sort shows; the second argument is read after the first was sorted
+    (it may be the same object) -/
+def stepM (mA mE : SortMode) (c : Call) (s : St) : Bool × St :=
+  let xs := sortIf mA c.order (s.get c.sel.firstIsA)
+  let s1 := s.upd c.sel.firstIsA (callerAfter mA c.order)
+  let ys := sortIf mE c.order (s1.get c.sel.secondIsA)
+  let s2 := s1.upd c.sel.secondIsA (callerAfter mE c.order)
+  (zipLongestAll c.close xs ys, s2)
+
+def runCallsM (mA mE : SortMode) : List Call → St → List Bool × St
+  | [], s => ([], s)
+  | c :: cs, s => let r := stepM mA mE c s; let rest := runCallsM mA mE cs r.2; (r.1 :: rest.1, rest.2)
+
+/-- with the sort modes of the source -/
+def step (c : Call) (s : St) : Bool × St := stepM sortActual sortExpected c s
+
+def runCalls (cs : List Call) (s : St) : List Bool × St := runCallsM sortActual sortExpected cs s
+end Sf
+
+namespace Ps
+def step (c : Call) (s : St) : Bool × St :=
+  (verdict c.close c.order (s.get c.sel.firstIsA) (s.get c.sel.secondIsA), s)
+
+def runCalls : List Call → St → List Bool × St
+  | [], s => ([], s)
+  | c :: cs, s => let r := step c s; let rest := runCalls cs r.2; (r.1 :: rest.1, rest.2)
+end Ps
+
+/-! ## the arguments of assertDataFrameEqual: None, a list of rows, or a DataFrame (schema + collect()) -/
+
+inductive Arg
+  | none
+  | rows (l : List Val)
+  | frame (schema : SFields) (l : List Val)
+
+def Arg.isFrame : Arg → Bool
+  | .frame _ _ => true
+  | _ => false
+
+def Arg.rowsOf : Arg → List Val
+  | .rows l => l
+  | .frame _ l => l
+  | .none => []
+
+namespace Sf
+/-- is the pair accepted (no exception of any kind)?  None guards, then the schema comparison under the regenerated
+    condition (a list has no `.schema`: AttributeError), then the rows -/
+def verdictArgs (close : Int → Int → Bool) (checkRowOrder : Bool) : Arg → Arg → Bool
+  | .none, .none => noneBothAccepts           -- otherwise `None.schema` raises
+  | .none, _ => false                         -- the guard raises, or `None.collect()` does
+  | _, .none => false
+  | a, e =>
+    (match schemaWhen with
+     | .bothFrames => if a.isFrame && e.isFrame then
+         (match a, e with | .frame sa _, .frame se _ => schemaVerdict sa se | _, _ => true) else true
+     | .expectedFrame => if e.isFrame then
+         (match a, e with | .frame sa _, .frame se _ => schemaVerdict sa se | _, _ => false) else true
+     | .never => true)
+    && verdict close checkRowOrder a.rowsOf e.rowsOf
+end Sf
+
+namespace Ps
+def verdictArgs (close : Int → Int → Bool) (checkRowOrder : Bool) : Arg → Arg → Bool
+  | .none, .none => true
+  | .none, _ => false
+  | _, .none => false
+  | a, e =>
+    (if a.isFrame && e.isFrame then
+       (match a, e with | .frame sa _, .frame se _ => schemaVerdict sa se | _, _ => true) else true)
+    && verdict close checkRowOrder a.rowsOf e.rowsOf
 end Ps
 
 end Sqlframe.C19
